@@ -600,6 +600,9 @@ STORE_CHAIN = [
     ("sharded_file_accessor", "Shard.store_cmc_chunk", 0),
     ("sharded_file_accessor", "MiniShard.store_cmc_chunk", 0),
     ("sharded_file_accessor", "MiniShard.append", 0),
+    ("sharded_file_accessor", "OnDiskBytesDict.__setitem__", 1),
+    ("sharded_file_accessor", "OnDiskByteArray.__add__", 0),
+    ("sharded_file_accessor", "OnDiskByteArray.__iadd__", 0),
 ]
 
 
@@ -830,3 +833,329 @@ def downscaler_dispatch(repo, col):
                     "" if ok else "padding mode %r is selected when the "
                     "outside value is %s" % (node.value, "absent" if is_none
                                              else "given"), node=node)
+
+
+# ---------------------------------------------------------------------
+def seek_before_read(repo, col):
+    """C05/C14: a byte range of a shard is read at its offset: every path to
+    `fp.read(length)` in Shard.read_bytes passes `fp.seek(<offset>)`."""
+    rule = "E-ORDER.seek-before-read"
+    fn = repo.func("sharded_file_accessor", "Shard.read_bytes", inline=True)
+    cfg = fn.cfg()
+    owner = enclosing_stmt_map(fn.node)
+    params = [p_ for p_ in fn.params if p_ != "self"]
+    off = params[0] if params else "offset"
+    defs = local_defs(fn.node)
+    seeks, reads = [], []
+    for c in calls_in(fn.node):
+        if isinstance(c.func, ast.Attribute) and c.func.attr == "seek" and \
+                c.args and off in closure_names(fn.node, names_in(c.args[0]),
+                                                defs) | names_in(c.args[0]):
+            n = cfg.node_of(owner.get(id(c)))
+            if n is not None:
+                seeks.append(n)
+        if isinstance(c.func, ast.Attribute) and c.func.attr == "read" and \
+                c.args:
+            n = cfg.node_of(owner.get(id(c)))
+            if n is not None:
+                reads.append((c, n))
+    if not reads:
+        col.add(rule, fn, "fp.seek(offset); fp.read(length)", True,
+                "no sized read recognised (os.pread / mmap?)", undecided=True)
+        return
+    for c, n in reads:
+        ok = bool(seeks) and cfg.every_path_passes(cfg.entry, n, seeks)
+        col.add(rule, fn, norm(c)[:50], ok, "" if ok else
+                "bytes are read without first seeking to the requested "
+                "offset: every range is read from the start of the file",
+                node=c)
+
+
+# ---------------------------------------------------------------------
+def probe_statuses(repo, col):
+    """C14/C18: an existence probe answers 'absent' only for 404; any other
+    failure status is raised, not reported as 'missing'."""
+    rule = "E-EXC.B.http.probe"
+    fn = repo.func("http_accessor", "HttpAccessor.file_exists")
+    from .core import closure_text
+    txt = closure_text(fn)
+    has_rfs = any(isinstance(c.func, ast.Attribute)
+                  and c.func.attr == "raise_for_status"
+                  for h in helper_closure(fn) for c in calls_in(h.node))
+    mentions_status = "status_code" in txt or ".ok" in txt
+    col.add(rule, fn, "non-404 failure statuses raise", has_rfs or
+            not mentions_status, "" if has_rfs else
+            "HttpAccessor.file_exists no longer raises for failure statuses "
+            "other than 404: a server error is reported as 'file absent'",
+            undecided=not has_rfs and not mentions_status)
+
+
+# ---------------------------------------------------------------------
+def new_dataset_stores_info(repo, col):
+    """C01/C03/C13/C19: creating a dataset writes its info file: every normal
+    path of get_IO_for_new_dataset passes accessor.store_file('info', ...)."""
+    rule = "E-ORDER.new-dataset-info"
+    fn = repo.func("precomputed_io", "get_IO_for_new_dataset", inline=True)
+    cfg = fn.cfg()
+    owner = enclosing_stmt_map(fn.node)
+    stores = []
+    for c in calls_in(fn.node):
+        if isinstance(c.func, ast.Attribute) and c.func.attr == "store_file" \
+                and c.args and "info" in norm(c.args[0]).lower():
+            n = cfg.node_of(owner.get(id(c)))
+            if n is not None:
+                stores.append(n)
+    if not stores:
+        # a helper may do it
+        from .core import nodes_passing
+        base = getattr(fn, "inlined_from", fn)
+        stores = nodes_passing(
+            base, lambda c: isinstance(c.func, ast.Attribute)
+            and c.func.attr == "store_file")
+        cfg = base.cfg()
+        fn = base
+    ok = bool(stores) and cfg.every_path_passes(cfg.entry, cfg.exit, stores)
+    col.add(rule, fn, "store_file('info', ...) on every normal path", ok,
+            "" if ok else "a new dataset can be handed out without its info "
+            "file having been stored: nothing written afterwards can be read "
+            "back")
+
+
+# ---------------------------------------------------------------------
+def decoder_fills_output(repo, col):
+    """C02/C03/C10: the array allocated for a compressed_segmentation chunk is
+    uninitialised memory until every channel has been decoded into it:
+    decode_chunk_into hands `chunk` to the per-channel decoder inside its
+    channel loop, and that decoder stores into it."""
+    rule = "E-SPEC.cseg.output-filled"
+    fn = repo.func("_compressed_segmentation", "decode_chunk_into")
+    params = fn.params
+    out = params[0] if params else "chunk"
+
+    unresolved = [False]
+
+    def writes_into(f, name, depth=0):
+        # views: v = name[...]  /  v = name
+        fdefs = local_defs(f.node)
+        aliases = {name}
+        changed = True
+        while changed:
+            changed = False
+            for nm_, ds in fdefs.items():
+                if nm_ in aliases:
+                    continue
+                for d in ds:
+                    v = d.value
+                    while isinstance(v, ast.Subscript):
+                        v = v.value
+                    if isinstance(v, ast.Name) and v.id in aliases and \
+                            d.value is not None and isinstance(
+                                d.value, (ast.Subscript, ast.Name)):
+                        aliases.add(nm_)
+                        changed = True
+        for al in aliases - {name}:
+            if _stores_into(f, al):
+                return True
+        if _stores_into(f, name):
+            return True
+        if depth < 3:
+            for c in calls_in(f.node):
+                if not any(isinstance(a, ast.Name) and a.id in aliases
+                           for a in c.args):
+                    continue
+                h = resolve_local_call(f, c)
+                if h is None or h is f:
+                    if (call_name(c) or "").split(".")[-1] not in (
+                            "len", "isinstance", "print", "range", "ceil_div",
+                            "min", "max", "prod"):
+                        unresolved[0] = True
+                    continue
+                hp = list(h.params)
+                for i, a in enumerate(c.args):
+                    if isinstance(a, ast.Name) and a.id in aliases and \
+                            i < len(hp) and writes_into(h, hp[i], depth + 1):
+                        return True
+        return False
+
+    def _stores_into(f, name):
+        for n in walk_local(f.node):
+            if isinstance(n, (ast.Assign, ast.AugAssign)):
+                tg = n.targets if isinstance(n, ast.Assign) else [n.target]
+                for t in tg:
+                    b = t
+                    while isinstance(b, ast.Subscript):
+                        b = b.value
+                    if isinstance(t, ast.Subscript) and \
+                            isinstance(b, ast.Name) and b.id == name:
+                        return True
+            if isinstance(n, ast.Call) and kwarg(n, "out") is not None and \
+                    name in names_in(kwarg(n, "out")):
+                return True
+        return False
+    ok = writes_into(fn, out)
+    col.add(rule, fn, "decoded blocks are stored into `%s`" % out,
+            ok or unresolved[0],
+            "" if ok else "decode_chunk_into never stores into its output "
+            "array (directly or through the per-channel decoder): the caller "
+            "gets uninitialised memory", undecided=not ok and unresolved[0])
+
+
+# ---------------------------------------------------------------------
+DRIVER_CHAIN = [
+    # (module, function, call that must be reached on every normal path)
+    ("volume_reader", "volume_file_to_precomputed",
+     "nibabel_image_to_precomputed"),
+    ("volume_reader", "nibabel_image_to_precomputed", "volume_to_precomputed"),
+    ("volume_reader", "store_nibabel_image_to_fullres_info", "store_file"),
+    ("scripts.compute_scales", "compute_scales", "compute_dyadic_scales"),
+    ("dyadic_pyramid", "compute_dyadic_scales", "compute_dyadic_downscaling"),
+    ("scripts.convert_chunks", "convert_chunks", "convert_chunks_for_scale"),
+    ("scripts.slices_to_precomputed", "main", "slices_to_raw_chunks"),
+    ("scripts.mesh_to_precomputed", "mesh_file_to_precomputed", "store_file"),
+    ("scripts.scale_stats", "show_scale_file_info", "show_scales_info"),
+    ("scripts.volume_to_precomputed_pyramid", "volume_to_precomputed_pyramid",
+     "compute_dyadic_scales"),
+    ("scripts.volume_to_precomputed_pyramid", "volume_to_precomputed_pyramid",
+     "nibabel_image_to_precomputed"),
+]
+
+
+def driver_chain(repo, col, shorts=None):
+    """C19 and the conversion properties: a command that returns success has
+    run its conversion step: every path of the driver that does not raise or
+    return a non-zero status passes the call that does the work."""
+    rule = "E-EXIT.driver-chain"
+    from .core import nodes_passing
+    n = 0
+    for ms, qn, callee in DRIVER_CHAIN:
+        if shorts is not None and ms not in shorts:
+            continue
+        if not repo.has_func(ms, qn):
+            continue
+        fn = repo.func(ms, qn)
+        cfg = fn.cfg()
+
+        def is_work(c, callee=callee):
+            return (call_name(c) or "").split(".")[-1] == callee or (
+                isinstance(c.func, ast.Attribute) and c.func.attr == callee)
+        work = nodes_passing(fn, is_work)
+        # error exits: `return <non-zero constant>`
+        err = []
+        for st in stmts_of(fn.node):
+            if isinstance(st, ast.Return) and st.value is not None and \
+                    const_int(st.value) not in (None, 0):
+                k = cfg.node_of(st)
+                if k is not None:
+                    err.append(k)
+        # loops over possibly empty collections legitimately skip the call;
+        # the loop header then counts as the work site
+        for st in stmts_of(fn.node):
+            if isinstance(st, (ast.For, ast.While)) and any(
+                    is_work(c) for c in calls_in(st)):
+                k = cfg.node_of(st)
+                if k is not None:
+                    work.append(k)
+        n += 1
+        if not work:
+            col.add(rule, fn, "%s(...) reached" % callee, True,
+                    "no call of %s in %s or its local helpers" % (callee,
+                                                                  fn.key),
+                    undecided=True)
+            continue
+        ok = cfg.every_path_passes(cfg.entry, cfg.exit, work + err)
+        path = None
+        if not ok:
+            p_ = cfg.path(cfg.entry, cfg.exit, avoiding=work + err)
+            path = [norm(x.ast)[:50] if x.ast is not None else x.label
+                    for x in (p_ or [])]
+        col.add(rule, fn, "%s(...) on every successful path" % callee, ok,
+                "" if ok else "%s can return normally (status 0) without "
+                "having called %s: the command reports success although "
+                "nothing was converted / written" % (fn.qualname, callee),
+                path=path)
+    return n
+
+
+# ---------------------------------------------------------------------
+def encoder_dispatch(repo, col):
+    """C03/C02/C10: the encoding named in the info selects the matching
+    codec class (branch polarity of the dispatch)."""
+    rule = "E-SIB.tables.encoder"
+    top = repo.func("chunk_encoding", "get_encoder")
+    want = {"raw": "RawChunkEncoder",
+            "compressed_segmentation": "CompressedSegmentationEncoder",
+            "jpeg": "JpegChunkEncoder"}
+    seen = 0
+    for fn in helper_closure(top):
+        owner = enclosing_stmt_map(fn.node)
+        for c in calls_in(fn.node):
+            nm = call_name(c) or ""
+            if nm not in want.values():
+                continue
+            st = owner.get(id(c))
+            ctx = _tests_enclosing(fn.node, st) if st is not None else None
+            if not ctx:
+                continue
+            enc = None
+            for t, tr in ctx:
+                for a in holds(t, tr):
+                    for b in (a, a.flipped()):
+                        if b.op == "==" and isinstance(b.right, ast.Constant) \
+                                and b.right.value in want:
+                            enc = b.right.value
+            if enc is None:
+                continue
+            seen += 1
+            ok = want[enc] == nm
+            col.add(rule, fn, "%s -> %s" % (enc, nm), ok, "" if ok else
+                    "encoding %r constructs %s" % (enc, nm), node=c)
+    if seen == 0:
+        col.add(rule, top, "encoding -> codec class", True,
+                "dispatch is not an if/elif on the encoding name",
+                undecided=True)
+
+
+# ---------------------------------------------------------------------
+def chunk_name_component_order(repo, col):
+    """C12: chunk file names list the six coordinates in the order
+    xmin, xmax, ymin, ymax, zmin, zmax (the components 0..5 of chunk_coords);
+    swapping min and max of one axis keeps the axis roles and is only visible
+    here."""
+    rule = "E-SIB.store.name-order"
+    n = 0
+    for ms, qn in (("file_accessor", "FileAccessor._chunk_path"),
+                   ("file_accessor", "FileAccessor._flat_chunk_basename"),
+                   ("http_accessor", "HttpAccessor.chunk_relative_url")):
+        if not repo.has_func(ms, qn):
+            continue
+        fn = repo.func(ms, qn)
+        for h in helper_closure(fn):
+            hdefs = local_defs(h.node)
+            params = [p_ for p_ in h.params if p_ not in ("self", "cls")]
+            for c in calls_in(h.node):
+                if not (isinstance(c.func, ast.Attribute)
+                        and c.func.attr == "format" and len(c.args) == 6
+                        and all(isinstance(a, ast.Name) for a in c.args)):
+                    continue
+                idx, src = [], set()
+                for a in c.args:
+                    ds = [d for d in hdefs.get(a.id, [])
+                          if d.index is not None and
+                          isinstance(d.value, ast.Name)]
+                    if len(ds) != 1:
+                        idx.append(None)
+                        continue
+                    idx.append(ds[0].index)
+                    src.add(ds[0].value.id)
+                if None in idx or len(src) != 1:
+                    continue
+                n += 1
+                ok = idx == [0, 1, 2, 3, 4, 5]
+                col.add(rule, h, norm(c)[:70], ok, "" if ok else
+                        "the six coordinates are formatted in the order %s "
+                        "of chunk_coords instead of 0..5: chunks are stored "
+                        "under names no reader looks for" % idx, node=c)
+    if n == 0:
+        col.add(rule, "file_accessor:FileAccessor._chunk_path",
+                "format(xmin, xmax, ymin, ymax, zmin, zmax)", True,
+                "six-coordinate format call not recognised", undecided=True)
